@@ -467,6 +467,20 @@ func (e *Engine) rangeConstraint(t string, typ types.Type) string {
 		return fmt.Sprintf("(and (<= 0 (sl_len %s)) (<= (sl_len %s) (sl_cap %s)) (<= 0 (sl_off %s)) (<= 0 (sl_ref %s)) (=> (= (sl_ref %s) 0) (= (sl_cap %s) 0)))", t, t, t, t, t, t, t)
 	case *types.Pointer, *types.Map, *types.Chan:
 		return fmt.Sprintf("(<= 0 %s)", t)
+	case *types.Struct:
+		// a struct value is well-formed field by field (slice headers, integer ranges)
+		var cs []string
+		for i := 0; i < u.NumFields() && i < 32; i++ {
+			if c := e.rangeConstraint(fmt.Sprintf("(%s %s)", e.S.structAcc(typ, i), t), u.Field(i).Type()); c != "" {
+				cs = append(cs, c)
+			}
+		}
+		if len(cs) == 1 {
+			return cs[0]
+		}
+		if len(cs) > 1 {
+			return "(and " + strings.Join(cs, " ") + ")"
+		}
 	}
 	return ""
 }
